@@ -366,6 +366,8 @@ class Summaries:
             n = I.length_of(a[0], ctx.arg_exprs[0])
             if n is not None and n % w == 0 and n // w <= 16:
                 return mk("array", *[mk("placeref", pl[0], tuple(pl[1]) + (("r", k * w, (k + 1) * w),)) for k in range(n // w)])
+        if tp == "core::slice::<impl [T]>::rchunks":
+            return mk("rchunks", a[0], a[1])      # chunks counted from the end of the slice; the short one (if any) comes last
         if tp in ("core::slice::<impl [T]>::chunks", "core::slice::<impl [T]>::chunks_exact"):
             n = I.length_of(a[0], ctx.arg_exprs[0] if ctx.arg_exprs else None)
             if n is not None and Tm.is_lit(a[1]) and a[1].args[0] > 0 and (name == "chunks_exact" or n % a[1].args[0] == 0) and n // a[1].args[0] <= 16:
@@ -571,6 +573,8 @@ class Summaries:
         # integers
         if tp == "core::num::<impl u64>::pow" and Tm.is_lit(a[0]) and Tm.is_lit(a[1]):
             return lit(a[0].args[0] ** a[1].args[0])
+        if tp.startswith("core::slice::ChunksExact::") and name == "remainder" and a and a[0].op == "chunks_exact":
+            return mk("chunks_rem", a[0].args[0], a[0].args[1])      # the short tail: bytes[len - len % n ..]
         if tp == "subtle::Choice::unwrap_u8":
             return Tm.choice_u8(a[0])
         m_ = re.match(r"core::num::<impl [ui](8|16|32|64|128|size)>::wrapping_(neg|sub)$", tp)
